@@ -181,6 +181,39 @@ def r5_session_keys(chk):
             r.bad(cfg, key, where(b, 0), "the data-phase keys are derived from the two STATIC key pairs only (crypto_kx) and the nonce counter restarts at 1: two sessions between the same peers encrypt equal plaintext to equal bytes")
 
 
+def r6_priority_only_when_passthrough_now(chk, rid="R6"):
+    r = chk.rule(rid, "control frames jump the egress queue only when the framer adds no record layer at that moment", "T3 guarded-by + freshness",
+                 "every EgressBuffer::push_priority is dominated by the true edge of ZmtpEngine::is_passthrough(), and that call is evaluated after the last suspension point / engine mutation "
+                 "before the push (a value read before the handshake describes the NULL framer): a sealed PING/PONG queued ahead of records sealed earlier fails the peer's MAC check")
+    for cfg, prog in chk.configs():
+        n = 0
+        for c in prog.calls_to(r"EgressBuffer::push_priority$"):
+            b = c.body
+            if "::tests" in b.path:
+                continue
+            n += 1
+            key = "%s|push_priority#%d under a fresh is_passthrough()" % (short(b.path), [x.blk for x in b.calls if x.name == "push_priority"].index(c.blk))
+            gcs = [g.atom[1] for g in b.guards(c.blk) if g.atom[0] == "call" and g.atom[1].matches(r"ZmtpEngine::is_passthrough$") and g.truth is True]
+            if not gcs:
+                r.bad(cfg, key, where(b, c.blk), "push_priority is not guarded by is_passthrough() == true: with an encrypting framer the record order on the wire no longer matches the nonce order")
+                continue
+            fresh = False
+            for gc in gcs:
+                if gc.target is None:
+                    continue
+                btw = b.reachable([gc.target], avoid_blocks=[gc.blk]) & b.bwd_reachable([c.blk], avoid_blocks=[gc.blk])
+                # only the straight-line region between the test and the push: blocks that can come back to the test are a new iteration
+                ys = [x for x in btw if b.term(x)["k"] == "yield"]
+                muts = [x2 for x2 in b.calls if x2.blk in btw and x2.blk != c.blk and x2.matches(r"ZmtpEngine::(on_network_bytes|on_tick|on_app_message|start|close|frame_\w+)$|ZmqMessageProcessor::read_and_process$|apply_engine_output")]
+                if not ys and not muts:
+                    fresh = True
+            if fresh:
+                r.ok(cfg, key, where(b, c.blk), "is_passthrough() is called right before the push (no await, no engine call in between)")
+            else:
+                r.bad(cfg, key, where(b, c.blk), "the is_passthrough() value that guards this push was read at %s, and the task awaits / drives the engine between that read and the push: the framer may have been replaced by the negotiated (encrypting) one in the meantime" % gcs[0].sp.split("/")[-1])
+        r.require(cfg, 2, "push_priority sites")
+
+
 def run(chk):
     chk.undecided = ["confidentiality / integrity as cryptographic properties", "correctness of snow and dryoc (trusted)"]
     r1_no_truncation(chk)
@@ -188,3 +221,4 @@ def run(chk):
     r3_nonce(chk)
     r4_decrypt_propagates(chk)
     r5_session_keys(chk)
+    r6_priority_only_when_passthrough_now(chk)
